@@ -25,6 +25,11 @@ from fickling.analysis import Severity, check_safety  # noqa: E402
 from fickling.exception import UnsafeFileError  # noqa: E402
 
 seed = int(sys.argv[1]) if len(sys.argv) > 1 else 0
+try:            # a mis-parsed length field must fail fast (MemoryError), not page through gigabytes
+    import resource
+    resource.setrlimit(resource.RLIMIT_AS, (3 << 30, 3 << 30))
+except Exception:  # noqa
+    pass
 CALLS, FOUND, ACTIVE = [], [], [False]
 sink = types.ModuleType("verif_c02_sink")
 
@@ -55,6 +60,12 @@ INPUTS = [
     ("plain-data-duplicate-proto", b"\x80\x02\x80\x02K\x01."),
     ("plain-data-duplicate-proto-other-version", b"\x80\x04\x80\x02]\x94."),
     ("plain-data-misplaced-proto", b"K\x01\x80\x030K\x02."),
+    # plain data whose text is not ASCII, followed by a bytes constant that would be a sink call if the parser lost count of the bytes
+    ("non-ascii-text-then-bytes-that-look-like-opcodes", pickle.dumps(("\u00e9\u00e9", b"cverif_c02_sink\nhit\n)R."), 4)),
+    ("non-ascii-text-then-bytes-that-look-like-opcodes-p2", pickle.dumps(["\u20ac" * 3, b"cverif_c02_sink\nhit\n)R.", "z"], 3)),
+    # 4 characters / 8 bytes of text, then BINPUT (2 bytes) and the 2-byte header of a SHORT_BINBYTES whose content is a sink call: a parser that
+    # counts characters where the stream counts bytes re-serialises the text 4 bytes short, and the unpickler then runs the content as opcodes
+    ("non-ascii-text-4-chars-8-bytes-then-opcode-like-bytes-p3", pickle.dumps(["\u00e9" * 4, b"cverif_c02_sink\nhit\n)R."], 3)),
     ("sink-call", assemble(call_sink + [op("STOP")])),
     ("sink-call-popped", assemble(call_sink + [op("POP"), op("NONE"), op("STOP")])),
     ("sink-import-only", assemble(G("verif_c02_sink", "hit") + [op("STOP")])),
@@ -122,16 +133,35 @@ fails, n = [], 0
 OTHER_ERRORS = {}
 
 
+class Hang(Exception):
+    pass
+
+
+def _alarm(signum, frame):
+    raise Hang("the call did not finish within 20 s")
+
+
+import signal  # noqa: E402
+signal.signal(signal.SIGALRM, _alarm)
+
+
 def verdict_of(data):
+    signal.alarm(20)
     try:
         return check_safety(fk.Pickled.load(data), json_output_path=os.path.join(os.getcwd(), "r.json")).severity
     except Exception as e:  # noqa
         return e
+    finally:
+        try:
+            signal.alarm(0)
+        except Hang:
+            signal.alarm(0)
 
 
 def observe(fn):
     del CALLS[:], FOUND[:]
     ACTIVE[0] = True
+    signal.alarm(20)
     try:
         return ("returned", fn())
     except UnsafeFileError as e:
@@ -139,7 +169,14 @@ def observe(fn):
     except BaseException as e:  # noqa
         return ("raised", e)
     finally:
+        try:
+            signal.alarm(0)
+        except Hang:            # (the alarm went off while C code was running and is delivered only now)
+            signal.alarm(0)
         ACTIVE[0] = False
+
+
+STOCK_CALLS = [0]
 
 
 def stock(data):
@@ -147,6 +184,7 @@ def stock(data):
     try:
         return pickle.loads(data)
     finally:
+        STOCK_CALLS[0] = len(CALLS)
         del CALLS[:]
 
 
@@ -194,7 +232,10 @@ for iname, data in INPUTS:
                     OTHER_ERRORS[type(val).__name__] = OTHER_ERRORS.get(type(val).__name__, 0) + 1      # failing for another reason is not excluded by the statement
                 else:
                     want = stock(data)
-                    if not (val == want) and repr(val) != repr(want):
+                    n_want = STOCK_CALLS[0]
+                    if len(calls) != n_want:
+                        fails.append(dict(case, kind="executed-other-than-analysed", what=f"the load called the sink {len(calls)} time(s); the analysed bytes call it {n_want} time(s) under the stock unpickler"))
+                    elif not (val == want) and repr(val) != repr(want):
                         fails.append(dict(case, kind="other-bytes-loaded", what=f"returned {val!r:.80}; the stock unpickler gives {want!r:.80} for the bytes that were analysed"))
 hook.remove_hook()
 print(json.dumps({"bounded": True, "inputs": len(INPUTS), "runs": n, "accepted_but_failed_for_another_reason": OTHER_ERRORS, "n_failures": len(fails),
